@@ -2,9 +2,10 @@
 import glob, json, os
 import vlib
 
-TARGETS = ["Base/Corr.vo", "Base/Fl.vo", "C01/Model.vo", "C02/Model.vo", "C11/Model.vo", "C03/Model.vo",
-           "C09/ModelS.vo", "C09/ModelB.vo", "C09/ModelV.vo", "C09/Spec.vo", "C09/Corr.vo", "C09/CorrB.vo", "C09/SpecTest.vo",
-           "C09/ProofsS.vo", "C09/ProofsB.vo", "C09/ProofsJ.vo", "C09/ProofsV.vo", "C09/ProofsRefuted.vo",
+TARGETS = ["Base/Corr.vo", "Base/Fl.vo", "C01/Model.vo", "C02/Model.vo", "C11/Model.vo", "C03/Model.vo", "C03/ModelM.vo",
+           "C10/Gen.vo", "C09/ModelS.vo", "C09/ModelB.vo", "C09/ModelV.vo", "C09/ModelM.vo", "C09/Spec.vo", "C09/Corr.vo",
+           "C09/CorrB.vo", "C09/CorrM.vo", "C09/SpecTest.vo",
+           "C09/ProofsS.vo", "C09/ProofsB.vo", "C09/ProofsJ.vo", "C09/ProofsV.vo", "C09/ProofsM.vo", "C09/ProofsRefuted.vo",
            "C09/ProofsRefutedB.vo", "C09/Props.vo"]
 PROPS = ["C09/Props.v"]
 PARTIAL = (
@@ -12,23 +13,35 @@ PARTIAL = (
     "models in which BOTH members of a pair are written out separately as the Go text has them: (1) magic scalars "
     "Real64/Real32 (shared register-file model coq/C01/Model.v for the generic members, coq/C09/ModelS.v for the "
     "concrete twins incl. the four textual copies realMonadic/realMonadicLazy/realDyadic/realDyadicLazy): NEG ADD SUB MUL "
-    "DIV POW SQRT EXP LOG LOG1P MIN MAX SET LOGADD LOGSUB and the predicates EQUALS GREATER SMALLER SIGN return exactly "
-    "the generic result — whole register file incl. Order, N, raw gradient and Hessian storage and panics; ABS is refuted "
-    "(receiver-sign test, no zero case); (2) bare scalars (Float64 Float32 Int Int8..Int64, carrier of coq/C02/Model.v): "
-    "the concrete twins equal the generic methods on operands that hold a value of the receiver's type; SQRT only where "
-    "math.Pow(x, 0.5) = math.Sqrt(x) (hypothesis; false at -0 and -Inf: refuted for the float carrier); (3) sparse vectors "
-    "(shared heap/AVL-key-set model coq/C11/Model.v, generic operations of coq/C03/Model.v, typed joint iterators "
+    "DIV POW SQRT EXP LOG LOG1P MIN MAX ABS SET LOGADD LOGSUB and the predicates EQUALS GREATER SMALLER SIGN return exactly "
+    "the generic result — whole register file incl. Order, N, raw gradient and Hessian storage and panics (ABS since "
+    "fix 2fc8894, SET with Alloc-before-Order since d9fca78; the round-1 witnesses are regression cases); (2) bare scalars "
+    "(Float64 Float32 Int Int8..Int64, carrier of coq/C02/Model.v): the concrete twins, ABS included, equal the generic "
+    "methods on operands that hold a value of the receiver's type; SQRT only where math.Pow(x, 0.5) = math.Sqrt(x) "
+    "(hypothesis; false at -0 and -Inf: refuted for the float carrier); bare LOGADD/LOGSUB (value model, temporary "
+    "distinct from the operands) on carriers with idempotent float32 rounding; (3) sparse "
+    "vectors (shared heap/AVL-key-set model coq/C11/Model.v, generic operations of coq/C03/Model.v, typed joint iterators "
     "JOINT_ITERATOR_/JOINT3_ITERATOR_ and the case-splitting loop bodies in coq/C09/ModelV.v): VADDV VSUBV VMULV VMULS SET "
     "and VDIVS with a non-zero divisor leave exactly the world of the generic method (every value, the private map, the "
     "index keys, skip() side effects on operands, panics); VADDS VSUBS VDIVV call the generic method; EQUALS = true "
     "implies Equals = true with the same world, the converse and VDIVS with divisor 0 are refuted with witnesses; "
-    "(4) dense vectors: all ten pairs. Element carrier of (3),(4) is Z (exact ring): what only floats can show (sign of "
-    "zero, 0*Inf, Order/N of magic elements written by the absent-entry cases) is outside these theorems and is "
-    "decided per run by the direct generic-vs-concrete comparison on the implementation. NOT modelled (compared on the "
-    "implementation only, every run, all nine element types, bit-exact incl. derivatives): dense matrix pairs MADDM.."
-    "MDIVS MDOTM OUTER EQUALS, MDOTV/VDOTM, accessors AT ROW COL DIAG SLICE, iterators ITERATOR ITERATOR_FROM "
-    "JOINT_ITERATOR, sparse matrices. The pair table is derived from the source (go/ast on the repository) and "
-    "from reflection; pairs that are not exercised are listed in the evidence.")
+    "(4) dense vectors: all ten pairs; (5) dense matrices (coq/C09/ModelM.v: nested i/j loops over AT = "
+    "&values[index(i,j)] with the index kernel coq/C10/Gen.v regenerates from the Go source, on the shared matrix world "
+    "coq/C03/ModelM.v whose step4 is the generic member): MADDM MSUBM MMULM MDIVM MADDS MSUBS MMULS MDIVS EQUALS OUTER "
+    "leave exactly the generic world and outcome on every world of well-formed (unsliced, untransposed) matrices, all "
+    "alias patterns, dimension mismatches and integer division by zero; MDOTM (both buffer branches), MDOTV, VDOTM are "
+    "modelled as coded and replayed against Go every run but their equality with C03's closed-form generic members is "
+    "NOT proved (C03's closed form of MdotM differs from Go for r = a = b, where both Go members compute the same wrong "
+    "product); integer MdotV/VdotM: the generic member multiplies in float64 — refuted with the witness 94906267^2 on "
+    "a model with explicit binary64 rounding and int64 wrap-around. Element carrier of (3)-(5) is Z (exact ring): what "
+    "only floats can show (sign of zero, 0*Inf, Order/N of magic elements written by the absent-entry cases) is outside "
+    "these theorems and is decided per run by the direct generic-vs-concrete comparison on the implementation. NOT "
+    "modelled (compared on the implementation only, every run, all nine element types, bit-exact incl. derivatives): "
+    "accessors AT ROW COL DIAG SLICE, iterators ITERATOR ITERATOR_FROM JOINT_ITERATOR of vectors and of dense and sparse "
+    "matrices (sparse matrices have no concrete arithmetic twins; their generic accessors and iterators call the "
+    "concrete ones), matrix views. The pair table is "
+    "derived from the source (go/ast on the repository) and from reflection; pairs that are not exercised are listed "
+    "in the evidence.")
 
 
 def known_ids():
@@ -80,7 +93,7 @@ def corr(ctx, binary, n):
         return None, []
     bad = []
     nc = ns = 0
-    for stem in ("cases", "bcases"):
+    for stem in ("cases", "bcases", "mcases"):
         meta = json.load(open(os.path.join(ctx.dir, stem + ".meta.json")))
         vlib.merge_meta(ctx, meta)
         shards = sorted(glob.glob(os.path.join(ctx.dir, stem + "_*.v")), key=lambda p: int(p.rsplit("_", 1)[1][:-2]))
@@ -125,7 +138,9 @@ def run(ctx):
     known = known_ids()
     n = 60 if ctx.tier == "quick" else 600
     meta, bad = corr(ctx, binary, n)
+    before0 = len(ctx.violations)
     o = judge_oracle(ctx, os.path.join(ctx.dir, "oracle.json"), "pair evaluation", known)
+    found0 = len(ctx.violations) > before0
     if o:
         ctx.cov["evaluations"] = ctx.cov.get("evaluations", 0) + int(o.get("evaluations", 0))
         ctx.cov.setdefault("extra", {})["pairs"] = {
@@ -139,6 +154,7 @@ def run(ctx):
                                                           if not (o.get("per_pair_nonpanic") or {}).get(k)),
             "known_difference_instances": o.get("diff_count"),
             "corpus_witnesses": o.get("corpus_witnesses"),
+            "regression_witnesses_of_fixed_findings_that_agree": o.get("regression_witnesses_agree"),
             "corpus_witnesses_that_agree_now (a listed finding may have been fixed)": o.get("corpus_witnesses_that_agree_now"),
         }
         # the pair table derived from the source, against the committed one: added / removed pairs show here
@@ -162,7 +178,7 @@ def run(ctx):
         hp = hunt(ctx, binary, cap)
         before = len(ctx.violations)
         h = judge_oracle(ctx, hp, "hunt (exhaustive small operands)", known)
-        found = len(ctx.violations) > before
+        found = found0 or len(ctx.violations) > before
         if h:
             ctx.cov["evaluations"] = ctx.cov.get("evaluations", 0) + int(h.get("evaluations", 0))
         if broke and not found:
